@@ -80,6 +80,7 @@ type stressRound struct {
 	streams   atomic.Int64
 	finished  atomic.Int64
 	handouts  atomic.Int64
+	routed    atomic.Int64
 	hookCalls atomic.Int64
 	syncs     atomic.Int64
 }
@@ -371,6 +372,7 @@ func taskIdentity(o *syncObs) string {
 // may be instructed to run a cacheable task at a time (do_not_cache tasks may
 // share digest and queue time, so they carry no usable identity here).
 func (s *stressRound) acquire(o *syncObs, actor string, wd WorkerDef) {
+	s.checkRouting(o, actor, wd)
 	if o.DNC {
 		return
 	}
@@ -383,6 +385,42 @@ func (s *stressRound) acquire(o *syncObs, actor string, wd WorkerDef) {
 	}
 	s.holders[id] = actor
 	s.holdMu.Unlock()
+}
+
+// checkRouting is the necessary condition of C05 that needs no model: a task
+// handed to a worker stems from a request whose instance name starts with the
+// worker's instance name prefix (component-wise), whose platform equals the
+// worker's platform, and the instance name suffix in the instruction is the
+// rest of that instance name. Which of several matching queues is the right
+// one (longest prefix) depends on the queues that exist at that instant and
+// is judged in stepped mode only.
+func (s *stressRound) checkRouting(o *syncObs, actor string, wd WorkerDef) {
+	known := false
+	for _, a := range s.world.Actions {
+		if a.Hash != o.Hash {
+			continue
+		}
+		known = true
+		want, have := splitInstance(a.Instance), splitInstance(wd.Prefix)
+		if len(have) > len(want) || fmt.Sprint(a.Props) != fmt.Sprint(wd.Props) {
+			continue
+		}
+		ok := true
+		for i := range have {
+			if have[i] != want[i] {
+				ok = false
+			}
+		}
+		if ok && o.Suffix == strings.Join(want[len(have):], "/") {
+			s.routed.Add(1)
+			return
+		}
+	}
+	if !known {
+		s.violate("handed-unknown-action", []string{"C01", "C05"}, "%s was told to execute %s, which no client requested", actor, o)
+		return
+	}
+	s.violate("task-from-other-queue", []string{"C05"}, "%s (prefix %q, platform %v, size class %d) was told to execute %s, but no request for that digest has an instance name below that prefix with suffix %q and that platform", actor, wd.Prefix, wd.Props, wd.SizeClass, o, o.Suffix)
 }
 
 func (s *stressRound) release(o *syncObs, actor string) {
@@ -467,6 +505,7 @@ func (s *stressRound) clockLoop(rng *rand.Rand, wg *sync.WaitGroup) {
 // StressResult summarises one round.
 type StressResult struct {
 	Streams, Finished, Handouts, HookCalls, Syncs int64
+	Routed                                        int64
 	Violations                                    []stressViolation
 	Events                                        []stressEvent
 	Hang                                          string
@@ -559,6 +598,7 @@ func RunStressRound(rng *rand.Rand, p Profile, procs int, dur int) *StressResult
 		}
 	}
 	res.Streams, res.Finished, res.Handouts, res.HookCalls, res.Syncs = s.streams.Load(), s.finished.Load(), s.handouts.Load(), s.hookCalls.Load(), s.syncs.Load()
+	res.Routed = s.routed.Load()
 	res.Violations = s.vios
 	if res.Hang == "" {
 		res.Events = s.log.events
@@ -583,6 +623,7 @@ func RunStress(r *ev.Run, prop string, n int) {
 		res := RunStressRound(rng, p, procs, 150)
 		r.Count("stress-streams", int(res.Streams))
 		r.Count("stress-hand-outs", int(res.Handouts))
+		r.Count("stress-hand-outs-routing-checked", int(res.Routed))
 		r.Count("stress-hook-walks-during-traffic", int(res.HookCalls))
 		r.Count("stress-synchronize-calls", int(res.Syncs))
 		r.Situation("stress-round")
